@@ -112,14 +112,26 @@ class Stream:
         re_ = ("f", self.next())
         nd = self.next()
         du = [("f", self.next()) for _ in range(nd)]
+        # compared BY NAME: no property pins the order in which a result stores its variables
+        if len(set(names)) == nv == nd and not getattr(self, "_raw", False):
+            o = sorted(range(nv), key=lambda i: names[i])
+            names, du = [names[i] for i in o], [du[i] for i in o]
         return ["dual", names, re_, du]
 
     def dual2(self):
+        self._raw = True
         d = self.dual()
+        self._raw = False
         nr = self.next()
         nc = self.next()
         dd = [("f", self.next()) for _ in range(nr * nc)]
-        return ["dual2", d[1], d[2], d[3], (nr, nc), dd]
+        names, du = d[1], d[3]
+        nv = len(names)
+        if len(set(names)) == nv == len(du) and nr == nv and nc == nv:
+            o = sorted(range(nv), key=lambda i: names[i])
+            names, du = [names[i] for i in o], [du[i] for i in o]
+            dd = [dd[p * nv + q] for p in o for q in o]
+        return ["dual2", names, d[2], du, (nr, nc), dd]
 
     def elem(self, kind):
         if kind == "f64":
